@@ -357,10 +357,35 @@ async fn part_a(ctx: &mut Ctx, epmd: &FakeEpmd, case: &mut usize) {
         }
         let n = ctx.n(260, 2500);
         let mut prev: Option<Op> = None;
+        // the limit of ONE header: control tuple and payload together name exactly 253..258 distinct atoms (the count is a
+        // one-byte field: 255 is the most a header can carry), for a send (cookie '' + one node name in the control tuple)
+        // and a send to a name (cookie, node name, the name); both modes get the same operations
+        let mut boundary: Vec<Op> = vec![];
+        for total in [253usize, 254, 255, 256, 257, 258] {
+            for reg in [false, true] {
+                let from = ExternalPid::new(Atom::new("lim_a@h"), 1, 2, 3);
+                let to = ExternalPid::new(Atom::new("lim_b@h"), 4, 5, 6);
+                let control_atoms = if reg { 3 } else { 2 };
+                // half of the cases repeat every payload atom (the SET has `total` elements), one payload atom is the cookie
+                let k = total - control_atoms;
+                let mut els: Vec<OwnedTerm> = (0..k).map(|i| OwnedTerm::Atom(Atom::new(format!("lim_{}", i)))).collect();
+                if total % 2 == 0 {
+                    let again = els.clone();
+                    els.extend(again);
+                    els.push(OwnedTerm::Atom(Atom::new("")));
+                }
+                // a pid inside the payload whose node name the control tuple names already
+                let payload = OwnedTerm::Tuple(vec![OwnedTerm::List(els), OwnedTerm::Pid(if reg { from.clone() } else { to.clone() })]);
+                boundary.push(if reg { Op::RegSend(from, "lim_name".to_string(), payload) } else { Op::Send(from, to, payload) });
+                ctx.count(&format!("{}_operation_distinct_atoms_{}", mode, total));
+            }
+        }
+        boundary.reverse();
         for i in 0..n {
             // a third of the operations are variants of the one before (same kind, `==` arguments in another form, …)
-            let op = match &prev {
-                Some(p) if ctx.rng.chance(1, 3) => variant_of(ctx, p, &cfg),
+            let op = match (&prev, boundary.pop()) {
+                (_, Some(b)) => b,
+                (Some(p), None) if ctx.rng.chance(1, 3) => variant_of(ctx, p, &cfg),
                 _ => gen_op(ctx, &cfg),
             };
             prev = Some(op.clone());
@@ -553,6 +578,30 @@ async fn node_setup(ctx: &mut Ctx, epmd: &FakeEpmd, case: usize) -> Result<(edp_
     if pre.iter().any(|x| *x) {
         ctx.fail("c07-operation-before-connect-succeeds", &format!("node level: send/link/unlink ok={:?}", pre));
     }
+    // tie of the node-level model: with no entry in the connection table every operation is `NodeNotConnected`
+    {
+        let m = node.monitor(&local(2, 0), &remote(2, 0)).await;
+        let r0 = ExternalReference::new(me_atom.clone(), 8, vec![1, 2, 3]);
+        let d = node.demonitor(&local(2, 0), &remote(2, 0), &r0).await;
+        let class = |e: &edp_node::Error| match e {
+            edp_node::Error::NodeNotConnected(_) => "err:notconnected wire=-".to_string(),
+            other => format!("err:other:{}", other.to_string().replace(' ', "_")),
+        };
+        let texts = [
+            (format!("L;{};{}", pid_text(&local(1, 0)), pid_text(&remote(1, 0))), node.link(&local(1, 0), &remote(1, 0)).await.err()),
+            (format!("U;{};{};1", pid_text(&local(1, 0)), pid_text(&remote(1, 0))), node.unlink(&local(1, 0), &remote(1, 0)).await.err()),
+            (format!("S;{};{};N", pid_text(&local(1, 0)), pid_text(&remote(1, 0))), node.send(&remote(1, 0), OwnedTerm::Nil).await.err()),
+            (format!("M;{};{};{}", pid_text(&local(2, 0)), pid_text(&remote(2, 0)), ref_text(&r0)), m.err()),
+            (format!("D;{};{};{}", pid_text(&local(2, 0)), pid_text(&remote(2, 0)), ref_text(&r0)), d.err()),
+        ];
+        for (t, e) in texts.iter() {
+            ctx.count("node_op_without_connection");
+            if e.is_none() {
+                ctx.fail("c07-operation-before-connect-succeeds", &format!("node level, no connection to the target's node: {} returned Ok", t));
+            }
+            ctx.tie("gen", &format!("c07node - w {}", t), &e.as_ref().map(class).unwrap_or_else(|| "ok".to_string()));
+        }
+    }
     node.start(0).await.map_err(|e| format!("node.start: {}", e))?;
     node.connect(peer_name.clone()).await.map_err(|e| format!("node.connect: {}", e))?;
     let peer = tokio::time::timeout(Duration::from_secs(5), peer).await.ok().and_then(|r| r.ok()).flatten().ok_or("peer handshake did not finish")?;
@@ -742,6 +791,235 @@ async fn part_c(ctx: &mut Ctx, epmd: &FakeEpmd, case: &mut usize) {
     }
 }
 
+/// where the armed yield hook stops an operation (name of the H3 point, `None` = not armed) and whether it got there
+static CUT_AT: Mutex<Option<&'static str>> = Mutex::new(None);
+static CUT_HIT: std::sync::atomic::AtomicBool = std::sync::atomic::AtomicBool::new(false);
+
+/// everything the client wrote until it closed the stream (or `wait` passed: `None`)
+async fn read_to_eof(peer: &mut PeerConn, wait: Duration) -> Option<Vec<u8>> {
+    let mut out = vec![];
+    let mut buf = vec![0u8; 1 << 16];
+    tokio::time::timeout(wait, async {
+        loop {
+            match peer.stream.read(&mut buf).await {
+                Ok(n) if n > 0 => out.extend_from_slice(&buf[..n]),
+                _ => break,
+            }
+        }
+    })
+    .await
+    .ok()?;
+    Some(out)
+}
+
+/// Part D — an operation that ends in the middle of its frame (the future is dropped between two partial writes, as a
+/// caller's `tokio::time::timeout` around `Node::send` does; or the write of header mode times out): the stream then carries
+/// a partial frame, so nothing more may be written to it.  Several operations on ONE connection, one of them cut at a seeded
+/// H3 point, more operations after it, then `close()`; the peer reads to the end of the stream.
+/// Tie `c07fail`: result of every operation and the exact bytes against `runOps` of the model; oracle `c07cutwire`: the
+/// bytes are the whole frames of the operations that succeeded, in order, followed by at most a proper prefix of ONE frame.
+async fn part_d(ctx: &mut Ctx, epmd: &FakeEpmd, case: &mut usize) {
+    let cfg = Cfg { huge: false, max_depth: 2, ..Cfg::default() };
+    edp_client::verif_hooks::set_yield_hook(Some(Box::new(|name: &str| {
+        let at = *CUT_AT.lock().unwrap();
+        if at == Some(name) {
+            CUT_HIT.store(true, Ordering::SeqCst);
+            u32::MAX
+        } else {
+            0
+        }
+    })));
+    for round in 0..ctx.n(24, 300) {
+        *case += 1;
+        let (mut conn, res, peer) = connect_pair(epmd, *case, false, Deviation::None, 5000).await;
+        let (Some(mut peer), true) = (peer, res.is_ok() && conn.is_connected()) else {
+            ctx.count("setup_retries");
+            continue;
+        };
+        let neg = neg_text(&conn);
+        let before = if round == 0 { 0 } else { ctx.rng.below(4) as usize };
+        let after = 1 + ctx.rng.below(3) as usize;
+        let mut ops = vec![];
+        let mut fates = vec![];
+        let mut results = vec![];
+        for i in 0..before + 1 + after {
+            let op = gen_op(ctx, &cfg);
+            let cut = i == before;
+            let point = if cut {
+                let with_payload = matches!(op, Op::Send(..) | Op::RegSend(..));
+                let k = ctx.rng.below(if with_payload { 3 } else { 2 });
+                Some(["send:after_len", "send:after_marker", "send:after_control"][k as usize])
+            } else {
+                None
+            };
+            *CUT_AT.lock().unwrap() = point;
+            CUT_HIT.store(false, Ordering::SeqCst);
+            let r = {
+                let mut fut = Box::pin(op.run(&mut conn));
+                std::future::poll_fn(|cx| match fut.as_mut().poll(cx) {
+                    std::task::Poll::Ready(r) => std::task::Poll::Ready(Some(r)),
+                    std::task::Poll::Pending if CUT_HIT.load(Ordering::SeqCst) => std::task::Poll::Ready(None),
+                    std::task::Poll::Pending => std::task::Poll::Pending,
+                })
+                .await
+                // the future is dropped here: a cancelled operation
+            };
+            *CUT_AT.lock().unwrap() = None;
+            let (fate, res) = match (&r, point) {
+                (None, Some(p)) => {
+                    ctx.count(&format!("cut_{}", &p[5..]));
+                    (format!("c{}.0", match p { "send:after_len" => 1, "send:after_marker" => 2, _ => 3 }), "cut".to_string())
+                }
+                // an operation that failed before its first write (a name that cannot be encoded) is not cut
+                (Some(Err(e)), _) => ("w".to_string(), err_class(e)),
+                (Some(Ok(())), _) => ("w".to_string(), "ok".to_string()),
+                (None, None) => ("w".to_string(), "cut-unasked".to_string()),
+            };
+            ctx.count(&format!("seq_op_{}", if res == "ok" { "ok" } else if res == "cut" { "cut" } else if i > before { "after_cut_err" } else { "err" }));
+            ops.push(op.text());
+            fates.push(fate);
+            results.push(res);
+        }
+        let _ = conn.close().await;
+        drop(conn);
+        let Some(wire) = read_to_eof(&mut peer, Duration::from_secs(10)).await else {
+            ctx.fail("c07-stream-broken", &format!("part D round {}: the stream did not end after close()", round));
+            continue;
+        };
+        ctx.add("wire_bytes", wire.len() as u64);
+        ctx.count("cut_sequences");
+        let req_ops = ops.join("/");
+        ctx.tie("gen", &format!("c07fail {} {} {}", neg, fates.join(","), req_ops), &format!("{} wire={}", results.join(","), hexarg(&wire)));
+        ctx.prop("gen", &format!("c07cutwire pt {} {} {}", results.join(","), hexarg(&wire), req_ops), "ok");
+    }
+    edp_client::verif_hooks::set_yield_hook(None);
+
+    // header mode: the single `write_all` of a frame larger than the socket buffers, to a peer that does not read, runs into
+    // the connection's timeout with part of the frame written.  How much was written is the kernel's business; what is
+    // compared: the operation fails, every later operation fails and writes nothing, and what the peer finally reads is a
+    // proper prefix of ONE frame (its length prefix announces more bytes than follow).
+    for round in 0..ctx.n(1, 3) {
+        *case += 1;
+        let (mut conn, res, peer) = connect_pair(epmd, *case, true, Deviation::None, 400).await;
+        let (Some(mut peer), true) = (peer, res.is_ok() && conn.is_connected()) else {
+            ctx.count("setup_retries");
+            continue;
+        };
+        let big = Op::Send(gen_pid(&mut ctx.rng, false), gen_pid(&mut ctx.rng, false), OwnedTerm::Binary(vec![round as u8; 32 << 20]));
+        let r = big.run(&mut conn).await;
+        let first = match &r {
+            Ok(()) => "ok".to_string(),
+            Err(edp_client::Error::Timeout(_)) => "cut".to_string(),
+            Err(e) => err_class(e),
+        };
+        ctx.count(&format!("hdr_write_timeout_{}", first));
+        // now the peer reads what has arrived, so that the socket would take further writes
+        let mut wire = peer.recv_bytes_until_quiet(Duration::from_millis(80)).await;
+        let mut later = vec![];
+        for _ in 0..3 {
+            let op = gen_op(ctx, &cfg);
+            let r = op.run(&mut conn).await;
+            let res = match &r {
+                Ok(()) => "ok".to_string(),
+                Err(e) => err_class(e),
+            };
+            ctx.tie("gen", &format!("c07send {} {} {} * {}", conn.state().as_str(), neg_text(&conn), if first == "cut" { 0 } else { 1 }, op.text()), &res);
+            later.push(res);
+        }
+        let _ = conn.close().await;
+        drop(conn);
+        let Some(rest) = read_to_eof(&mut peer, Duration::from_secs(20)).await else {
+            ctx.fail("c07-stream-broken", "part D header mode: the stream did not end after close()");
+            continue;
+        };
+        wire.extend_from_slice(&rest);
+        let announced = if wire.len() >= 4 { u32::from_be_bytes([wire[0], wire[1], wire[2], wire[3]]) as usize } else { usize::MAX };
+        let proper_prefix_of_one_frame = wire.len() < 4 || wire.len() - 4 < announced;
+        if first != "cut" {
+            // the kernel took the whole frame: nothing to see here
+            ctx.count("hdr_write_timeout_not_reached");
+        } else if !proper_prefix_of_one_frame || later.iter().any(|x| x == "ok") {
+            ctx.fail(
+                "c07-write-after-partial-frame",
+                &format!("mode=hdr send(Binary 32 MiB) to a peer that does not read: result={} later={:?} bytes_at_peer={} announced_frame_length={}", first, later, wire.len(), announced),
+            );
+        }
+    }
+}
+
+/// Part E — the caller drops the future of a NODE operation: `tokio::time::timeout(short, node.send(to, big))` towards a peer
+/// that has stopped reading (small receive buffer, so the sender stalls after some kilobytes).  The send is cancelled with
+/// part of its frame on the wire and the connection mutex is released; then another task issues operations through the same
+/// node.  The peer then reads everything there is.  Judge: the independent reader (`c07cutwire`): whole frames of the
+/// operations that returned Ok, then at most the beginning of ONE frame, and no operation succeeds after the cut.
+async fn part_e(ctx: &mut Ctx, epmd: &FakeEpmd, case: &mut usize) {
+    for round in 0..ctx.n(3, 20) {
+        *case += 1;
+        let short = format!("c07s{}", case);
+        let peer_name = format!("{}@127.0.0.1", short);
+        let listener = listen_as_rcvbuf(epmd, &short, 4096).await;
+        let pcfg = PeerCfg::new(&peer_name, "c07cookie");
+        let peer = tokio::spawn(async move { accept_and_handshake(&listener, &pcfg).await });
+        let me = format!("c07stall{}@127.0.0.1", case);
+        let mut node = edp_node::Node::new(me.clone(), "c07cookie");
+        if node.start(0).await.is_err() || node.connect(peer_name.clone()).await.is_err() {
+            ctx.count("setup_retries");
+            continue;
+        }
+        let Some(mut peer) = tokio::time::timeout(Duration::from_secs(5), peer).await.ok().and_then(|r| r.ok()).flatten() else {
+            ctx.count("setup_retries");
+            continue;
+        };
+        let node = Arc::new(node);
+        let peer_atom = Atom::new(&peer_name);
+        let me_atom = Atom::new(&me);
+        let remote = |id: u32| ExternalPid::new(peer_atom.clone(), id, 1, 77);
+        let local = |id: u32| ExternalPid::new(me_atom.clone(), id, 1, 8);
+        let mut texts: Vec<String> = vec![];
+        let mut results: Vec<String> = vec![];
+        // some whole frames first (the peer's buffers take them), in two of three rounds
+        let before = if round % 3 == 0 { 0 } else { 1 + ctx.rng.below(3) as usize };
+        for i in 0..before {
+            let (f, t) = (local(100 + i as u32), remote(200 + i as u32));
+            let r = node.link(&f, &t).await;
+            texts.push(format!("L;{};{}", pid_text(&f), pid_text(&t)));
+            results.push(if r.is_ok() { "ok".into() } else { "err".into() });
+        }
+        // the big send, dropped by its caller
+        let big = OwnedTerm::Binary(vec![0x5a; 6 << 20]);
+        let to = remote(1);
+        let n2 = node.clone();
+        let cancelled = tokio::spawn(async move { tokio::time::timeout(Duration::from_millis(150), n2.send(&to, big)).await.is_err() }).await.unwrap_or(false);
+        texts.push("-".to_string());
+        results.push(if cancelled { "cut".into() } else { "err".into() });
+        ctx.count(if cancelled { "node_send_dropped_by_caller" } else { "node_send_not_dropped" });
+        // another task goes on using the node
+        let n3 = node.clone();
+        let (f1, t1, t2) = (local(2), remote(2), remote(3));
+        let later = tokio::spawn(async move {
+            let a = tokio::time::timeout(Duration::from_millis(300), n3.link(&f1, &t1)).await;
+            let b = tokio::time::timeout(Duration::from_millis(300), n3.send(&t2, OwnedTerm::Atom(Atom::new("after")))).await;
+            (a.map(|r| r.is_ok()).unwrap_or(false), b.map(|r| r.is_ok()).unwrap_or(false))
+        })
+        .await
+        .unwrap_or((false, false));
+        texts.push(format!("L;{};{}", pid_text(&local(2)), pid_text(&remote(2))));
+        results.push(if later.0 { "ok".into() } else { "err".into() });
+        texts.push(format!("S;{};{};A6166746572", pid_text(&local(0)), pid_text(&remote(3))));
+        results.push(if later.1 { "ok".into() } else { "err".into() });
+        // now the peer reads whatever there is
+        let wire = peer.recv_bytes_until_quiet(Duration::from_millis(400)).await;
+        ctx.add("wire_bytes", wire.len() as u64);
+        ctx.count("stalled_peer_rounds");
+        if later.0 || later.1 {
+            ctx.count("operation_ok_after_dropped_send");
+        }
+        ctx.prop("gen", &format!("c07cutwire pt {} {} {}", results.join(","), hexarg(&wire), texts.join("/")), "ok");
+        drop(node);
+        drop(peer);
+    }
+}
+
 /// One-off demonstration (`drive c07 quick 1 out big`; needs ~13 GiB of memory, not part of any tier): a frame of 2^32
 /// bytes or more.  The length prefix is 32 bits wide, so such an operation cannot be a frame; it has to be refused.
 async fn part_big(ctx: &mut Ctx, epmd: &FakeEpmd, case: &mut usize) {
@@ -824,5 +1102,7 @@ pub fn run(ctx: &mut Ctx) {
         part_b(ctx, &epmd, &mut case).await;
         edp_client::verif_hooks::set_yield_hook(None);
         part_c(ctx, &epmd, &mut case).await;
+        part_d(ctx, &epmd, &mut case).await;
+        part_e(ctx, &epmd, &mut case).await;
     });
 }
